@@ -31,11 +31,17 @@ def run(tier, seed):
     e2e_common.report_rules(v, PROP, res['trace_rules'])
     # two input regions outside the grid: a non-empty output directory (stale longer / shorter files at the
     # same paths) and single files beyond 4 GiB (sparse, only the chunks around the 2^32 byte mark travel)
-    sp = vlib.run_vh_sharded(['xfer-special', '-seed', str(seed), '-groups', 'prepop,manychunks,manyfiles,large,rechunk,symlink,geometry,multiselect'], 8, timeout=1800)
+    sp = vlib.run_vh_sharded(['xfer-special', '-seed', str(seed), '-groups', 'prepop,manychunks,manyfiles,large,rechunk,symlink,geometry,multiselect,resend'], 8, timeout=1800)
     for viol in sp['violations']:
         if viol['sig'].get('property') == 'C01':
             v.violation(viol['sig'], viol.get('replay'))
-    v.coverage = dict(states=mc['states'], transitions=mc['transitions'], traces_validated_against_impl=res['behaviours'],
+    # "with or without resume": a second fetch into a directory that already holds the tree, whose last recorded chunk is
+    # damaged on disk - success on both sides must still mean an identical tree (cases of the C06 driver)
+    rt = vlib.run_vh_sharded(['resume-tamper', '-seed', str(seed), '-only', 'complete-torn-last,torn-first-only'], 4, timeout=1200)
+    for viol in rt['violations']:
+        if viol['sig'].get('kind') == 'stale_or_damaged_resume_state_trusted':
+            v.violation(dict(kind='both_sides_report_success_tree_differs', via='resumed fetch over a damaged last recorded chunk', case=viol['sig'].get('case')), viol.get('replay'))
+    v.coverage = dict(states=mc['states'], transitions=mc['transitions'], traces_validated_against_impl=res['behaviours'], resumed_over_damaged_chunk=rt['behaviours'],
                       samples=res['samples'][:6], hook_traces_validated_by_tlc=res['trace_stats'], transfers_not_traced=res['extra'].get('transfers_not_traced'), tlc=dict(runs=mc['runs'], invariant="Fidelity: sres=ok /\\ rres=ok => every chunk of every file written correctly"),
                       grid=dict(rows_in_grid=res['grid_rows'], runs=res['behaviours'], multi_file_runs=res['distinct'], outcomes=res['extra'].get('outcomes'),
                                 skipped_over_budget=res['extra'].get('skipped_over_budget')),
